@@ -17,6 +17,7 @@ import (
 	"sort"
 	"strings"
 	"sync"
+	"sync/atomic"
 	"testing/iotest"
 	"time"
 
@@ -63,6 +64,8 @@ type RTObs struct {
 	Panic         bool     `json:"panic"`
 	Note          string   `json:"-"`
 }
+
+var slowLoggerBudget int32 = 24
 
 func rtChain(ks string) *Chain {
 	return cachedChain("rt-"+ks, func() *Chain {
@@ -213,6 +216,12 @@ func runRoundTrip() int {
 		ver, bver := rtVerifier(chain, in.Signer == "localTSA", in.Expiry == 1)
 		meta := rtMeta(in.Meta)
 		ctx := context.Background()
+		// signing proper, for a few cases per run with an expiry of an hour or more, under a caller-supplied logger that is SLOW: the
+		// clock moves on by seconds while the library signs
+		sctx := ctx
+		if in.Expiry >= 3600 && in.Signer == "local" && atomic.AddInt32(&slowLoggerBudget, -1) >= 0 {
+			sctx = withSlowLogger(ctx, 150*time.Millisecond)
+		}
 		obs := RTObs{PayloadFields: []string{}, BrokenReader: "n/a", WrongBlob: "n/a", WrongCMT: "n/a"}
 		sopts := notation.SignerSignOptions{SignatureMediaType: mediaTypeOf(in.Format), ExpiryDuration: time.Duration(in.Expiry) * time.Second, SigningAgent: "verif-harness/1"}
 		if in.Signer == "localTSA" {
@@ -279,7 +288,7 @@ func runRoundTrip() int {
 					_, _, ferr := repo.PushSignature(ctx, mediaTypeOf(other), fenv, art, map[string]string{"io.cncf.notary.x509chain.thumbprint#S256": "[]"})
 					must(ferr)
 				}
-				_, _, err = notation.SignOCI(ctx, sg, repo, notation.SignOptions{SignerSignOptions: sopts, ArtifactReference: "v1", UserMetadata: copyMap(meta)})
+				_, _, err = notation.SignOCI(sctx, sg, repo, notation.SignOptions{SignerSignOptions: sopts, ArtifactReference: "v1", UserMetadata: copyMap(meta)})
 				if err != nil {
 					obs.Note = "sign: " + err.Error()
 					return
@@ -313,7 +322,7 @@ func runRoundTrip() int {
 				}
 				alg := hashName[map[string]string{"EC-256": "sha256", "RSA-2048": "sha256", "EC-384": "sha384", "RSA-3072": "sha384", "EC-521": "sha512", "RSA-4096": "sha512"}[in.KeySpec]]
 				wantTarget = ocispec.Descriptor{MediaType: cmt, Digest: alg.FromBytes(blob), Size: int64(len(blob)), Annotations: copyMap(meta)}
-				sig, _, err := notation.SignBlob(ctx, sg, blobReader(blob, mix(*flagSeed, c.ID, "rd")), notation.SignBlobOptions{SignerSignOptions: sopts, ContentMediaType: cmt, UserMetadata: copyMap(meta)})
+				sig, _, err := notation.SignBlob(sctx, sg, blobReader(blob, mix(*flagSeed, c.ID, "rd")), notation.SignBlobOptions{SignerSignOptions: sopts, ContentMediaType: cmt, UserMetadata: copyMap(meta)})
 				if err != nil {
 					obs.Note = "sign: " + err.Error()
 					return
